@@ -4,6 +4,7 @@ import ParryModel.C16.Model
 import ParryModel.C16.Lemmas
 import ParryModel.C16.Theorems2
 import ParryModel.C16.Theorems3
+import ParryModel.C16.Theorems4
 /-!
 # C16 property theorems: ear clipping and Hertel–Mehlhorn, for every linearly ordered field.
 
